@@ -5,6 +5,10 @@ import PetgraphModel.Proofs.C08W2Edges
 import PetgraphModel.Proofs.C08W2Nest
 import PetgraphModel.Proofs.C08W2Reach
 import PetgraphModel.Proofs.C08W2Fuel
+import PetgraphModel.Proofs.C08W3Total
+import PetgraphModel.Proofs.C08W3Driver
+import PetgraphModel.Proofs.C08W3Clauses
+import PetgraphModel.Proofs.C08W3MoveTo
 /-
 C08 — `Dfs`, `Bfs`, `DfsPostOrder`, `Topo`, `depth_first_search` visit what graph theory says.
 Theorems over the mirror models of `Model/Traversal.lean` (tied to /repo by the exact
@@ -278,5 +282,272 @@ theorem C08_dfsv_fuel (v : View) (hv : ViewOk v) (hwf : v.g.WellFormed) (script 
     (starts : List Nat) (hst : ∀ x, x ∈ starts → x ∈ v.g.nodes) (hf : dfsFuel v ≤ fuel) :
     (dfsSearch v script fuel starts {}).2 ≠ .fuel :=
   TravProofs.dfsv_fuel hv hwf hst hf
+
+/-! ### wave 3: totality of the walker models
+
+All walker theorems above are conditional on `dfsAll / bfsAll / postAll / topoAll … = some out`
+(`none` = the model ran out of fuel).  `ViewOk` alone does not exclude that: it fixes the *set* of
+neighbours a view enumerates, not how often (`C08_total_needs_bound_witness`).  The theorems below
+give an explicit fuel, in terms of the neighbour lists of the view, that always suffices:
+
+  inner fuel (loop iterations of one `next` call)  `walkFuel v = Σ_{u ∈ nodes} (|v.succ u| + 2) + 2`
+  outer fuel (number of `next` calls)              `|nodes| + 1`
+
+and `C08_driver_fuel_suffices` shows the fuel of `Driver/C08.lean` is at least that for every view
+the driver accepts (there `|v.succ u| = |g.succ u|`, so `walkFuel v ≤ 2|E| + 2|V| + 2`). -/
+
+/-- the inner fuel that suffices for every walker: `Σ_{u ∈ nodes} (|v.succ u| + 2) + 2` -/
+abbrev walkFuel (v : View) : Nat := TravProofs.walkFuel v
+
+theorem C08_walkFuel_eq (v : View) :
+    walkFuel v = (v.g.nodes.map fun a => (v.succ a).length + 1).sum + v.g.nodes.length + 2 := by
+  simp only [walkFuel, TravProofs.walkFuel, TravProofs.wsum_nil_eq]
+
+/-- under the neighbour-list length bound (the hypothesis of `C16_simple_fast`; true of every view a
+driver accepts) `walkFuel v ≤ 2|E| + 2|V| + 2` -/
+theorem C08_walkFuel_le (v : View) (hwf : v.g.WellFormed)
+    (hb : ∀ a, a ∈ v.g.nodes → (v.succ a).length ≤ (v.g.succ a).length) :
+    walkFuel v ≤ 2 * v.g.edges.length + 2 * v.g.nodes.length + 2 :=
+  TravProofs.walkFuel_le_of_succLe v hwf hb
+
+/-- **`Dfs` is total**: created at (or `move_to`-ed to) a node `s`, whatever the discovered set `D`
+left by earlier use, the run to exhaustion returns within `walkFuel v` inner and `|nodes| + 1` outer
+fuel. -/
+theorem C08_dfs_total (v : View) (hv : ViewOk v) (hwf : v.g.WellFormed) (s : Nat) (hs : s ∈ v.g.nodes)
+    (D : List Nat) (inner outer : Nat) (hi : walkFuel v ≤ inner) (ho : v.g.nodes.length + 1 ≤ outer) :
+    ∃ out d', dfsAll v inner outer { stack := [s], disc := D } [] = some (out, d') :=
+  TravProofs.dfs_total v (TravProofs.closed_of_wf hv hwf) s hs D inner outer hi ho []
+
+/-- **`Bfs` is total** within `|nodes| + 1` calls (there is no inner loop, and no bound on the
+neighbour lists is needed). -/
+theorem C08_bfs_total (v : View) (hv : ViewOk v) (hwf : v.g.WellFormed) (s : Nat) (hs : s ∈ v.g.nodes)
+    (fuel : Nat) (ho : v.g.nodes.length + 1 ≤ fuel) : ∃ out, bfsAll v fuel (Bfs.new s) [] = some out :=
+  TravProofs.bfs_total v (TravProofs.closed_of_wf hv hwf) s hs fuel ho
+
+/-- **`DfsPostOrder` is total**: created at (or `move_to`-ed to) a node `s`, whatever the discovered
+and finished sets left by earlier use. -/
+theorem C08_postorder_total (v : View) (hv : ViewOk v) (hwf : v.g.WellFormed) (s : Nat) (hs : s ∈ v.g.nodes)
+    (D F : List Nat) (inner outer : Nat) (hi : walkFuel v ≤ inner) (ho : v.g.nodes.length + 1 ≤ outer) :
+    ∃ out d', postAll v inner outer { stack := [s], disc := D, fin := F } [] = some (out, d') :=
+  TravProofs.post_total v (TravProofs.closed_of_wf hv hwf) s hs D F inner outer hi ho []
+
+/-- **`Topo` is total** (from `Topo::new`). -/
+theorem C08_topo_total (v : View) (hv : ViewOk v) (hwf : v.g.WellFormed)
+    (inner outer : Nat) (hi : walkFuel v ≤ inner) (ho : v.g.nodes.length + 1 ≤ outer) :
+    ∃ out, topoAll v inner outer (Topo.new v) [] = some out :=
+  TravProofs.topo_total v (TravProofs.closed_of_wf hv hwf) inner outer hi ho
+
+/-- **`Topo::with_initials` is total**: for a duplicate-free list of nodes within the same fuel, for
+an arbitrary list of nodes with `|l|` more inner fuel (the initial stack can be that long). -/
+theorem C08_topo_withInitials_total (v : View) (hv : ViewOk v) (hwf : v.g.WellFormed) (l : List Nat)
+    (hl : ∀ x, x ∈ l → x ∈ v.g.nodes) (inner outer : Nat) (ho : v.g.nodes.length + 1 ≤ outer)
+    (hi : (l.Nodup ∧ walkFuel v ≤ inner) ∨ walkFuel v + l.length ≤ inner) :
+    ∃ out, topoAll v inner outer (Topo.withInitials v l) [] = some out := by
+  rcases hi with ⟨hnd, hi⟩ | hi
+  · exact TravProofs.topo_withInitials_total_nodup v (TravProofs.closed_of_wf hv hwf) l hnd hl inner outer hi ho
+  · exact TravProofs.topo_withInitials_total v (TravProofs.closed_of_wf hv hwf) l hl inner outer hi ho
+
+/-- **the driver's fuel suffices**: for every view `Driver/C08.lean` accepts (`viewOkB`: the neighbour
+lists of every node are permutations of the abstract graph's) over a well-formed graph, each fuel the
+driver uses is at least the bound of the totality theorem of the model it runs —
+`runDfs` / `topoAll` inner `bigFuel`, `runPost` inner `2·bigFuel`, `runDfs` / `runPost` outer
+`inner + 4`, `bfsAll` / `topoAll` outer `|nodes| + 2`, `dfsv` `4·bigFuel ≥ dfsFuel` (`C08_dfsv_fuel`). -/
+theorem C08_driver_fuel_suffices (v : View) (h : C08.viewOkB v = true) (hwf : v.g.WellFormed) :
+    walkFuel v ≤ C08.bigFuel v ∧ walkFuel v ≤ 2 * C08.bigFuel v ∧
+    v.g.nodes.length + 1 ≤ C08.bigFuel v + 4 ∧ v.g.nodes.length + 1 ≤ 2 * C08.bigFuel v + 4 ∧
+    v.g.nodes.length + 1 ≤ v.g.nodes.length + 2 ∧ dfsFuel v ≤ 4 * C08.bigFuel v :=
+  TravProofs.driver_fuel v h hwf
+
+/-- what `viewOkB` checks, as propositions: on every node the successor / predecessor iteration of
+the view is a permutation of the abstract graph's (so `ViewOk` / `PredOk` restricted to the nodes,
+and the length bound); a view that moreover enumerates nothing for a non-node satisfies `ViewOk` and
+`PredOk` in full (over a well-formed graph). -/
+theorem C08_driver_view_check (v : View) (h : C08.viewOkB v = true) :
+    (∀ a, a ∈ v.g.nodes → (v.succ a).Perm (v.g.succ a) ∧ (v.pred a).Perm (v.g.pred a) ∧
+      (∀ b, b ∈ v.succ a ↔ v.g.Adj a b) ∧ (∀ b, b ∈ v.pred a ↔ v.g.Adj b a)) ∧
+    (v.g.WellFormed → (∀ a, a ∉ v.g.nodes → v.succ a = [] ∧ v.pred a = []) → ViewOk v ∧ PredOk v) :=
+  ⟨fun a ha => ⟨(TravProofs.viewOkB_perm v h a ha).1, (TravProofs.viewOkB_perm v h a ha).2,
+     TravProofs.viewOkB_succ_iff v h a ha, TravProofs.viewOkB_pred_iff v h a ha⟩,
+   fun hwf hout => TravProofs.viewOkB_viewOk v h hwf hout⟩
+
+/-- **no model run of the driver ends by lack of fuel**: on every accepted view of a well-formed
+graph, with the driver's fuel, `Dfs` / `DfsPostOrder` (from any node, after any earlier use), `Bfs`,
+`Topo` (all, or from any duplicate-free list of initial nodes) run to exhaustion and
+`depth_first_search` never reports `Res.fuel`; the driver's own loops `C08.bfsAll` / `C08.topoAll`
+return exactly the exhaustive runs the theorems speak about. -/
+theorem C08_driver_runs_total (v : View) (h : C08.viewOkB v = true) (hwf : v.g.WellFormed) :
+    (∀ s, s ∈ v.g.nodes → ∀ D, ∃ out d',
+      dfsAll v (C08.bigFuel v) (C08.bigFuel v + 4) { stack := [s], disc := D } [] = some (out, d')) ∧
+    (∀ s, s ∈ v.g.nodes → ∀ D F, ∃ out d',
+      postAll v (2 * C08.bigFuel v) (2 * C08.bigFuel v + 4) { stack := [s], disc := D, fin := F } [] = some (out, d')) ∧
+    (∀ s, s ∈ v.g.nodes → ∃ out, bfsAll v (v.g.nodes.length + 2) (Bfs.new s) [] = some out ∧
+      C08.bfsAll v (v.g.nodes.length + 2) (Bfs.new s) [] = out) ∧
+    (∃ out, topoAll v (C08.bigFuel v) (v.g.nodes.length + 2) (Topo.new v) [] = some out ∧
+      C08.topoAll v (C08.bigFuel v) (v.g.nodes.length + 2) (Topo.new v) [] = out) ∧
+    (∀ l : List Nat, l.Nodup → (∀ x, x ∈ l → x ∈ v.g.nodes) →
+      ∃ out, topoAll v (C08.bigFuel v) (v.g.nodes.length + 2) (Topo.withInitials v l) [] = some out ∧
+        C08.topoAll v (C08.bigFuel v) (v.g.nodes.length + 2) (Topo.withInitials v l) [] = out) ∧
+    (∀ script starts, (∀ x, x ∈ starts → x ∈ v.g.nodes) →
+      (dfsSearch v script (4 * C08.bigFuel v) starts {}).2 ≠ .fuel) := by
+  obtain ⟨f1, f2, f3, f4, f5, f6⟩ := TravProofs.driver_fuel v h hwf
+  have hcl := TravProofs.viewOkB_closed v h hwf
+  refine ⟨?_, ?_, ?_, ?_, ?_, ?_⟩
+  · intro s hs D; exact TravProofs.dfs_total v hcl s hs D _ _ f1 f3 []
+  · intro s hs D F; exact TravProofs.post_total v hcl s hs D F _ _ f2 f4 []
+  · intro s hs
+    obtain ⟨out, ho⟩ := TravProofs.bfs_total v hcl s hs _ f5
+    exact ⟨out, ho, TravProofs.driver_bfsAll_eq v _ _ _ _ ho⟩
+  · obtain ⟨out, ho⟩ := TravProofs.topo_total v hcl _ _ f1 f5
+    exact ⟨out, ho, TravProofs.driver_topoAll_eq v _ _ _ _ _ ho⟩
+  · intro l hnd hl
+    obtain ⟨out, ho⟩ := TravProofs.topo_withInitials_total_nodup v hcl l hnd hl _ _ f1 f5
+    exact ⟨out, ho, TravProofs.driver_topoAll_eq v _ _ _ _ _ ho⟩
+  · intro script starts hst
+    exact TravProofs.dfsSearch_no_fuel v script _ hcl starts {} hst f6
+
+/-- **the driver's scripted walker runs never report `FUEL`**: on every accepted view of a well-formed
+graph, for every `walk dfs` / `walk post` script (any sequence of `move_to`, `reset`, "take k", "take
+all") whose `move_to` targets are nodes, the model answer `runDfs` / `runPost` consists only of node
+ids and `x` (`showTok`), i.e. neither `dfsNext` / `postNext` nor the outer `takeN` loop ever ran out
+of the driver's fuel. -/
+theorem C08_driver_walk_no_fuel (v : View) (h : C08.viewOkB v = true) (hwf : v.g.WellFormed)
+    (cmds : List C08.Cmd) (hc : ∀ s, C08.Cmd.new s ∈ cmds → s ∈ v.g.nodes) :
+    (∃ toks : List (Option Nat), C08.runDfs v cmds = toks.map C08.showTok) ∧
+    (∃ toks : List (Option Nat), C08.runPost v cmds = toks.map C08.showTok) := by
+  obtain ⟨f1, f2, _⟩ := TravProofs.driver_fuel v h hwf
+  have hcl := TravProofs.viewOkB_closed v h hwf
+  exact ⟨TravProofs.runDfs_no_fuel v hcl f1 cmds hc, TravProofs.runPost_no_fuel v hcl f2 cmds hc⟩
+
+/-- `ViewOk` alone is not enough (the auditor's witness): the graph `0 → 1` seen through a view that
+lists the neighbour `1` of `0` sixty times satisfies `ViewOk` over a well-formed graph, yet with the
+driver's fuel (`bigFuel = 24`) the `Dfs` model gives up (`none`): after emitting `0` and `1` it has
+59 stale copies of `1` to pop in one `next` call.  `viewOkB` rejects this view, and
+`walkFuel v = 65 > 24`. -/
+theorem C08_total_needs_bound_witness :
+    ∃ v : View, ViewOk v ∧ v.g.WellFormed ∧ C08.viewOkB v = false ∧ 0 ∈ v.g.nodes ∧
+      dfsAll v (C08.bigFuel v) (C08.bigFuel v + 4) { stack := [0], disc := [] } [] = none := by
+  let g : MGraph := ⟨true, [0, 1], [⟨0, 0, 1, 1⟩]⟩
+  let v : View := ⟨g, 2, [(0, 0), (1, 1)], [(0, List.replicate 60 (1, 0))], []⟩
+  have hv : ViewOk v := by
+    intro a b
+    by_cases ha : a = 0
+    · subst ha
+      simp only [View.succ, View.outOf, v, g, MGraph.Adj]
+      simp [List.lookup]
+      constructor
+      · rintro rfl; rfl
+      · intro e; exact e.symm
+    · have e0 : (a == 0) = false := by simpa using ha
+      simp only [View.succ, View.outOf, v, g, MGraph.Adj]
+      simp [List.lookup, e0]
+      intro e; exact (ha e.symm).elim
+  refine ⟨v, hv, ?_, by decide, by simp [v, g], by decide⟩
+  refine ⟨by simp [v, g], ?_⟩
+  intro e he
+  simp only [v, g, List.mem_singleton] at he
+  subst he
+  simp [v, g]
+
+/-! ### wave 3: corollaries with the run hypothesis discharged -/
+
+/-- fresh `Dfs`, unconditionally: within the stated fuel the run returns, and it lists exactly the
+reachable set, each node once. -/
+theorem C08_dfs_exact (v : View) (hv : ViewOk v) (hwf : v.g.WellFormed) (s : Nat) (hs : s ∈ v.g.nodes)
+    (inner outer : Nat) (hi : walkFuel v ≤ inner) (ho : v.g.nodes.length + 1 ≤ outer) :
+    ∃ out d', dfsAll v inner outer { stack := [s], disc := [] } [] = some (out, d') ∧
+      out.Nodup ∧ ∀ x, x ∈ out ↔ Reach v.g s x := by
+  obtain ⟨out, d', h⟩ := C08_dfs_total v hv hwf s hs [] inner outer hi ho
+  exact ⟨out, d', h, C08_dfs v hv s inner outer out d' h⟩
+
+/-- `Bfs`, unconditionally. -/
+theorem C08_bfs_exact (v : View) (hv : ViewOk v) (hwf : v.g.WellFormed) (s : Nat) (hs : s ∈ v.g.nodes)
+    (fuel : Nat) (ho : v.g.nodes.length + 1 ≤ fuel) :
+    ∃ out, bfsAll v fuel (Bfs.new s) [] = some out ∧ out.Nodup ∧ (∀ x, x ∈ out ↔ Reach v.g s x) ∧
+      ∀ i j (hi : i < out.length) (hj : j < out.length), i ≤ j →
+        ∀ di dj, IsDist v.g s out[i] di → IsDist v.g s out[j] dj → di ≤ dj := by
+  obtain ⟨out, h⟩ := C08_bfs_total v hv hwf s hs fuel ho
+  exact ⟨out, h, C08_bfs v hv s fuel out h⟩
+
+/-- fresh `DfsPostOrder`, unconditionally: exactly the reachable set, each once, every node after
+each of its successors that cannot reach it back. -/
+theorem C08_postorder_exact (v : View) (hv : ViewOk v) (hwf : v.g.WellFormed) (s : Nat) (hs : s ∈ v.g.nodes)
+    (inner outer : Nat) (hi : walkFuel v ≤ inner) (ho : v.g.nodes.length + 1 ≤ outer) :
+    ∃ out d', postAll v inner outer { stack := [s] } [] = some (out, d') ∧
+      out.Nodup ∧ (∀ x, x ∈ out ↔ Reach v.g s x) ∧
+      ∀ x y, x ∈ out → v.g.Adj x y → ¬ Reach v.g y x → out.idxOf y < out.idxOf x := by
+  obtain ⟨out, d', h⟩ := C08_postorder_total v hv hwf s hs [] [] inner outer hi ho
+  exact ⟨out, d', h, (C08_postorder_set v hv s inner outer out d' h).1,
+    (C08_postorder_set v hv s inner outer out d' h).2,
+    fun x y hx hxy hb => C08_postorder_order v hv s inner outer out d' h x y hx hxy hb⟩
+
+/-- `Topo`, unconditionally: it emits exactly the nodes neither on nor downstream of a cycle, each
+once, each after all its predecessors. -/
+theorem C08_topo_exact_total (v : View) (hv : ViewOk v) (hp : PredOk v) (hwf : v.g.WellFormed)
+    (inner outer : Nat) (hi : walkFuel v ≤ inner) (ho : v.g.nodes.length + 1 ≤ outer) :
+    ∃ out, topoAll v inner outer (Topo.new v) [] = some out ∧ out.Nodup ∧
+      (∀ x ∈ out, ∀ p, v.g.Adj p x → p ∈ out ∧ out.idxOf p < out.idxOf x) ∧
+      ∀ x, x ∈ v.g.nodes → (x ∈ out ↔ ∀ c, Reach1 v.g c c → ¬ Reach v.g c x) := by
+  obtain ⟨out, h⟩ := C08_topo_total v hv hwf inner outer hi ho
+  exact ⟨out, h, (C08_topo_order v hv hp inner outer out h).1, (C08_topo_order v hv hp inner outer out h).2,
+    fun x hx => C08_topo_exact v hv hp hwf inner outer out h x hx⟩
+
+/-! ### wave 3: clauses not covered before -/
+
+/-- **reverse post-order of a DAG is a topological order**: on a graph without cycles the reverse
+of the `DfsPostOrder` output lists exactly the nodes reachable from the start, each once, and every
+edge out of a listed node points forward in it. -/
+theorem C08_postorder_reverse_topo (v : View) (hv : ViewOk v) (s : Nat) (inner outer : Nat) (out : List Nat)
+    (d' : Post) (h : postAll v inner outer { stack := [s] } [] = some (out, d'))
+    (hdag : ∀ c, ¬ Reach1 v.g c c) :
+    out.reverse.Nodup ∧ (∀ x, x ∈ out.reverse ↔ Reach v.g s x) ∧
+    ∀ x y, x ∈ out.reverse → v.g.Adj x y →
+      y ∈ out.reverse ∧ out.reverse.idxOf x < out.reverse.idxOf y :=
+  TravProofs.post_reverse_topo v hv s inner outer out d' h hdag
+
+/-- **`Topo` emits every node exactly when the graph is acyclic** (a self-loop is a cycle). -/
+theorem C08_topo_all_iff_acyclic (v : View) (hv : ViewOk v) (hp : PredOk v) (hwf : v.g.WellFormed)
+    (inner outer : Nat) (out : List Nat) (h : topoAll v inner outer (Topo.new v) [] = some out) :
+    (∀ x, x ∈ v.g.nodes → x ∈ out) ↔ ∀ c, ¬ Reach1 v.g c c :=
+  TravProofs.topo_all_iff_acyclic v hv hp hwf inner outer out h
+
+/-- **`DfsPostOrder::move_to` on a used walker** (the shape of `C08_dfs_moveTo`): `move_to(s)` clears
+the stack and keeps the `discovered` / `finished` maps `D`, `F` of the earlier use (`F ⊆ D`: only
+discovered nodes are ever finished).  Iterated to exhaustion from there the walker emits, each once,
+exactly the nodes reachable from `s` through nodes outside `D` — plus `s` itself when the earlier run
+had discovered but not yet finished it (`s ∈ D`, `s ∉ F`: an abandoned run; then `s` is popped as
+"discovered, unfinished" and emitted alone) — and the maps grow by exactly the emitted nodes.
+`D = F = []` is the fresh walker of `C08_postorder_set`; after a run to exhaustion `D = F`. -/
+theorem C08_postorder_moveTo (v : View) (hv : ViewOk v) (s : Nat) (D F : List Nat)
+    (hFD : ∀ x, x ∈ F → x ∈ D) (inner outer : Nat) (out : List Nat) (d' : Post)
+    (h : postAll v inner outer { stack := [s], disc := D, fin := F } [] = some (out, d')) :
+    out.Nodup ∧
+    (∀ x, x ∈ out ↔ ReachAvoid v.g D s x ∨ (x = s ∧ s ∈ D ∧ s ∉ F)) ∧
+    (∀ x, x ∈ d'.disc ↔ x ∈ D ∨ ReachAvoid v.g D s x) ∧
+    (∀ x, x ∈ d'.fin ↔ x ∈ F ∨ x ∈ out) :=
+  TravProofs.post_moveTo v hv s D F hFD inner outer out d' h
+
+/-- **`Topo::with_initials(l)`**, any list `l`: no node twice; every emitted node comes after all its
+predecessors, all of which were emitted (so nothing on or downstream of a cycle is emitted); and
+every emitted node is reachable from a node of `l` that has no predecessor. -/
+theorem C08_topo_withInitials (v : View) (hv : ViewOk v) (hp : PredOk v) (l : List Nat) (inner outer : Nat)
+    (out : List Nat) (h : topoAll v inner outer (Topo.withInitials v l) [] = some out) :
+    out.Nodup ∧ (∀ x ∈ out, ∀ p, v.g.Adj p x → p ∈ out ∧ out.idxOf p < out.idxOf x) ∧
+    (∀ c x, Reach1 v.g c c → Reach v.g c x → x ∉ out) ∧
+    ∀ x, x ∈ out → ∃ i, i ∈ l ∧ (∀ p, ¬ v.g.Adj p i) ∧ Reach v.g i x := by
+  refine ⟨(TravProofs.topo_withInitials_order v hp l inner outer out h).1,
+    (TravProofs.topo_withInitials_order v hp l inner outer out h).2,
+    fun c x hc hcx => TravProofs.topo_withInitials_no_cyclic v hp l inner outer out h c x hc hcx, ?_⟩
+  intro x hx
+  obtain ⟨i, hi, hi0, hix⟩ := TravProofs.topo_withInitials_sound v hv l inner outer (Topo.withInitials v l) [] out
+    (by
+      intro y hy
+      simp only [Topo.withInitials, Topo.initials, List.mem_reverse, List.mem_filter, List.isEmpty_iff] at hy
+      exact ⟨y, hy.1, hy.2, Reach.refl y⟩)
+    (by intro y hy; cases hy) h x hx
+  refine ⟨i, hi, ?_, hix⟩
+  intro p hpi
+  have := (hp i p).mpr hpi
+  rw [hi0] at this
+  cases this
 
 end PetgraphModel.C08T
